@@ -53,6 +53,11 @@ fn vp_get_text(id: StrId) -> (r: String)
 { unimplemented!() }
 
 #[verifier::external_body]
+fn vp_token_text(t: &Token) -> (r: String)
+    ensures utf8(r@) == text_bytes(t.text),
+{ unimplemented!() }
+
+#[verifier::external_body]
 fn vp_comment_matches(text: &str) -> (r: Vec<(usize, usize)>)
     ensures wf_matches(r@, bytes_of(text).len() as int),
 { unimplemented!() }
